@@ -539,6 +539,35 @@ func %(h3)s(vs ...any) string { out := ""; for _, v := range vs { out += %(h2)s(
 '''
 
 
+def s_json_via_dependency(p):
+    """a library package that marshals with encoding/json but does not import reflect itself; the marshalled struct type is
+    declared in main and only handed over as `any`: that its field names stay readable is knowledge recorded in the
+    LIBRARY's garble cache entry (which parameter of Encode reaches reflection)"""
+    rel = "enc%sonly" % p.go          # a package of its own, so that nothing else makes it import reflect
+    p.add_pkg(rel, "enc%spkg" % p.go)
+    p.libs.append(rel)
+    enc = p.n("EncodeJSON")
+    p.add(rel, """
+func %(enc)s(v any) string {
+	b, err := json.Marshal(v)
+	if err != nil {
+		return err.Error()
+	}
+	return string(b)
+}
+""" % locals(), {'"encoding/json"'})
+    T, f1, f2 = p.n("Config", keep=True), p.n("HostName", keep=True), p.n("PortNumber", keep=True)
+    pkgname = p.pkgs[rel]["name"]
+    p.add("", """
+type %(T)s struct {
+	%(f1)s string
+	%(f2)s int
+}
+""" % locals(), {'"%s"' % p.ipath(rel)})
+    p.run_func("", "\treturn %(pkgname)s.%(enc)s(%(T)s{%(f1)s: \"localhost\", %(f2)s: 8000 + len(args)})" % locals(), {'"%s"' % p.ipath(rel)})
+    p.features.append("json-via-dependency")
+
+
 def s_reflect(p, variant=None):
     """types declared in a library package; reflected through helper chains from main and from the library itself"""
     rel = p.lib()
